@@ -10,6 +10,7 @@ from __future__ import annotations
 
 import itertools
 import json
+import time
 from typing import Any, Dict, List, Optional, Tuple
 
 from harness import core, detsched, shims, tlc, tracecheck
@@ -236,7 +237,8 @@ def scripts_for(kind: str, nthreads: int, tier: str) -> List[Dict[str, Any]]:
 
 def explore_script(args) -> Dict[str, Any]:
     """All schedules (up to the bound) of one script; returns distinct traces with multiplicities."""
-    sc, bound, max_sched, nrandom, seed, falsy = args
+    sc, bound, max_sched, nrandom, seed, falsy = args[:6]
+    deadline = args[6] if len(args) > 6 else None      # wall-clock budget of the tier: exploration of this script stops there
     kind = sc["kind"]
     traces: Dict[str, List[Any]] = {}
     stats = {"executions": 0, "deadlocks": 0, "steplimit": 0, "contended": 0, "thread_exc": 0}
@@ -273,6 +275,9 @@ def explore_script(args) -> Dict[str, Any]:
         ex = detsched.Explorer(bound=bound, max_schedules=max_sched, random_schedules=nrandom, seed=seed)
         for ds in ex.explore(run_one):
             stats["executions"] += 1
+            if deadline is not None and stats["executions"] >= 50 and time.time() > deadline:
+                ex.truncated = True
+                break
             tr = list(ds.trace)
             if ds.deadlocked:
                 stats["deadlocks"] += 1
@@ -296,13 +301,14 @@ def conc_check(ck, kinds: List[str], tier: str, nthreads_list=(2,), falsy_too: b
     bound = 2 if tier == "quick" else 3
     max_sched = 100 if tier == "quick" else 3000
     nrandom = 10 if tier == "quick" else 300
+    deadline = None if tier == "quick" else time.time() + 40 * 60   # thorough: every script gets >= 50 schedules, the rest as time allows
     jobs = []
     for kind in kinds:
         for nt in nthreads_list:
             for sc in scripts_for(kind, nt, tier):
-                jobs.append((sc, bound, max_sched, nrandom, ck.seed, False))
+                jobs.append((sc, bound, max_sched, nrandom, ck.seed, False, deadline))
                 if falsy_too and kind in ("composite", "serial", "single", "multiple"):
-                    jobs.append((sc, bound, max(40, max_sched // 4), 0, ck.seed, True))
+                    jobs.append((sc, bound, max(40, max_sched // 4), 0, ck.seed, True, deadline))
     results = core.parallel_map(explore_script, jobs, procs=12, chunk=1) if len(jobs) > 3 else [explore_script(j) for j in jobs]
     total_exec = 0
     per_kind: Dict[str, List[Tuple[Any, Dict[str, Any], int, bool, List[int]]]] = {}
